@@ -4,8 +4,8 @@ package main
 // first delimiter; everything the server sent after it (possibly a complete reply in the same read) is kept.
 
 import (
-	"go/types"
 	"fmt"
+	"go/types"
 
 	"golang.org/x/tools/go/ssa"
 )
